@@ -25,6 +25,7 @@ EXPLANATION = (
     "reaches the stored record unchanged through every call on the way. FM-7: a full record list drops the "
     "oldest message, never the new one."
     " FM-8: value-flow chains - the Duration PtpInstanceState::bmca is called with reaches ForeignMaster::step_age's `age += step` unchanged through Port::step_announce_age, Bmca::step_age and ForeignMasterList::step_age, and the interval Port::new hands to Bmca::new is the port's announce interval, stored by ForeignMasterList::new and used by purge_old_messages for the window."
+    ' FM-9 (= C07 NI-6): a slave port whose recommendation names another master re-initialises its slave state. FM-10: ForeignMasterList::step_age removes a record whose ForeignMaster::step_age reports it empty. FM-8 also covers the source of the step: PtpInstance::bmca hands down from_seconds(2^log_bmca_interval).'
 )
 NOT_DECIDED = ("'within a bounded number of announce intervals' / 'never dropped while announcing regularly' as "
                "temporal statements; behaviour beyond the record capacity of 8")
